@@ -75,6 +75,7 @@ pub fn worker_main(def: &'static PropDef, tier: Tier, seed: u64, start: u64, str
 	let handle = on_big_stack(move || {
 		let mut agg = Agg { runs: 0, execs: 0, events: 0, nontrivial: 0, violations: 0, counters: BTreeMap::new(), keys: HashSet::new(), traces: HashSet::new(), samples: vec![] };
 		let out = std::io::stdout();
+		let findings = known::load();
 		let indices: Box<dyn Iterator<Item = u64>> = match only {
 			Some(v) => Box::new(v.into_iter()),
 			None => Box::new((start..runs).step_by(stride as usize)),
@@ -104,10 +105,19 @@ pub fn worker_main(def: &'static PropDef, tier: Tier, seed: u64, start: u64, str
 			if agg.samples.len() < 2 && (ev.nontrivial || idx % 1000 == 999) {
 				agg.samples.push(compact_case(&case));
 			}
-			let mut o = out.lock();
+			// Attribute each violation instance to an open known finding, or report it.
+			let mut lines: Vec<String> = vec![];
 			for v in &ev.violations {
 				agg.violations += 1;
-				let _ = writeln!(o, "V\t{idx}\t{}\t{}", v.class.replace(['\t', '\n'], " "), v.msg.replace(['\t', '\n'], " "));
+				let class = v.class.replace(['\t', '\n'], " ");
+				match known::attribute_in_process(def, &findings, &case, &v.class) {
+					Some(fid) => lines.push(format!("K\t{idx}\t{fid}\t{class}")),
+					None => lines.push(format!("V\t{idx}\t{class}\t{}", v.msg.replace(['\t', '\n'], " "))),
+				}
+			}
+			let mut o = out.lock();
+			for l in &lines {
+				let _ = writeln!(o, "{l}");
 			}
 			if idx % sample_every == 0 || stride == 0 {
 				let _ = writeln!(o, "T\t{idx}\t{:016x}\t{}", ev.trace ^ ev.key, ev.violations.len());
@@ -300,6 +310,7 @@ pub fn minimise(def: &PropDef, case: &J, class: &str, budget: Duration) -> (J, u
 // ------------------------------------------------------------------ parent
 
 struct WorkerOut {
+	known: Vec<(u64, String, String)>,
 	violations: Vec<(u64, String, String)>,
 	samples_t: Vec<(u64, String)>,
 	stats: Option<J>,
@@ -317,11 +328,12 @@ fn spawn_worker(def: &PropDef, tier: Tier, seed: u64, start: u64, stride: u64, r
 	let mut child = cmd.spawn().expect("spawn worker");
 	std::thread::spawn(move || {
 		let stdout = child.stdout.take().unwrap();
-		let mut wo = WorkerOut { violations: vec![], samples_t: vec![], stats: None, hang: None, status: String::new() };
+		let mut wo = WorkerOut { known: vec![], violations: vec![], samples_t: vec![], stats: None, hang: None, status: String::new() };
 		for line in BufReader::new(stdout).lines() {
 			let Ok(line) = line else { break };
 			let p: Vec<&str> = line.splitn(4, '\t').collect();
 			match p.first().copied() {
+				Some("K") if p.len() == 4 => wo.known.push((p[1].parse().unwrap_or(0), p[2].to_owned(), p[3].to_owned())),
 				Some("V") if p.len() == 4 => wo.violations.push((p[1].parse().unwrap_or(0), p[2].to_owned(), p[3].to_owned())),
 				Some("T") if p.len() >= 3 => wo.samples_t.push((p[1].parse().unwrap_or(0), format!("{}/{}", p[2], p.get(3).unwrap_or(&"")))),
 				Some("S") if p.len() >= 2 => wo.stats = serde_json::from_str(&line[2..]).ok(),
@@ -400,6 +412,7 @@ pub fn check_main(def: &'static PropDef, opts: &CheckOpts) -> i32 {
 	let mut t_samples: BTreeMap<u64, String> = BTreeMap::new();
 	let mut stats: Vec<J> = vec![];
 	let mut crashes = 0u64;
+	let mut known_hit: BTreeMap<String, u64> = BTreeMap::new();
 	let mut rounds = 0;
 	while !pending.is_empty() && rounds < 200 {
 		rounds += 1;
@@ -407,6 +420,9 @@ pub fn check_main(def: &'static PropDef, opts: &CheckOpts) -> i32 {
 		for (w, start, h) in handles {
 			let wo = h.join().expect("worker reader thread");
 			all_viol.extend(wo.violations);
+			for (_, fid, _) in &wo.known {
+				*known_hit.entry(fid.clone()).or_insert(0) += 1;
+			}
 			for (i, t) in wo.samples_t {
 				t_samples.insert(i, t);
 			}
@@ -504,33 +520,16 @@ pub fn check_main(def: &'static PropDef, opts: &CheckOpts) -> i32 {
 	for (idx, class, msg) in &all_viol {
 		by_class.entry(class.clone()).and_modify(|e| e.2 += 1).or_insert((*idx, msg.clone(), 1));
 	}
-	let mut known_hit: BTreeMap<String, u64> = BTreeMap::new();
 	let mut reported = 0;
 	let mut unattributed = 0u64;
-	// Attribution is per violation instance (not per class).
-	let mut instances_by_class: BTreeMap<String, Vec<u64>> = BTreeMap::new();
-	for (idx, class, _) in &all_viol {
-		instances_by_class.entry(class.clone()).or_default().push(*idx);
+	if !by_class.is_empty() {
+		println!("violation classes ({}):", by_class.len());
+		for (class, (idx, _, count)) in by_class.iter().take(80) {
+			println!("  x{count:<6} first run {idx:<8} {class}");
+		}
 	}
 	for (class, (first_idx, first_msg, count)) in &by_class {
-		let idxs = &instances_by_class[class];
-		let mut unattr: Option<u64> = None;
-		let mut checked = 0;
-		for &idx in idxs {
-			// Attribution costs an isolated evaluation; cap the work per class.
-			if checked >= 40 {
-				break;
-			}
-			checked += 1;
-			let case = (def.gen)(seed, idx, tier);
-			match known::attribute(def, &kf, &case, class) {
-				Some(fid) => *known_hit.entry(fid).or_insert(0) += 1,
-				None => {
-					unattr = Some(idx);
-					break;
-				}
-			}
-		}
+		let unattr = Some(*first_idx);
 		let Some(idx) = unattr else { continue };
 		unattributed += count;
 		if reported >= 6 {
